@@ -80,6 +80,32 @@ class Table:
         return Table(self.items, self.axis)
 
 
+class ColBuffer(Table):
+    """numpy.empty((n, k)): a table whose k columns are filled one by one (table[:, j] = x, or out=table[:, j])."""
+
+    def __init__(self, ncols):
+        super().__init__([None] * ncols, 1)
+
+    @staticmethod
+    def _col(key):
+        if isinstance(key, tuple) and len(key) == 2 and key[0] == slice(None, None, None) and isinstance(key[1], int):
+            return key[1]
+        raise AnalysisError(f'only whole columns of a preallocated table are modelled, not [{key!r}]')
+
+    def __setitem__(self, key, val):
+        self.items[self._col(key)] = val
+
+    def __getitem__(self, key):
+        return ColRef(self, self._col(key))
+
+
+class ColRef:
+    """table[:, j] of a preallocated table: a view to write into."""
+
+    def __init__(self, buf, j):
+        self.buf, self.j = buf, j
+
+
 class CoordVar:
     def __init__(self, name: str, aligned=True):
         self.values = raw(f'coord_{name}')
@@ -191,6 +217,21 @@ class XyeModel(Model):
                 return Table(args[0], 0)
         if path == 'numpy.transpose' and args and isinstance(args[0], Table | NdArr):
             return args[0].T
+        if path in ('numpy.empty', 'numpy.zeros', 'numpy.empty_like') and args and isinstance(args[0], tuple) and len(args[0]) == 2 \
+                and isinstance(args[0][1], int):
+            return ColBuffer(args[0][1])
+        out = kwargs.get('out')
+        if out is not None and path.startswith('numpy.'):
+            # a ufunc writing its result into an existing array (a column of a preallocated table, or a loaded column in place)
+            r = self.call_ext(interp, path, args, {k: v for k, v in kwargs.items() if k != 'out'}, node)
+            if isinstance(out, ColRef):
+                out.buf.items[out.j] = r
+                return r
+            if isinstance(out, NdArr) and isinstance(r, NdArr) and r.size == out.size:
+                for k, p in enumerate(out._idx):
+                    out._store[p] = r.elems[k]
+                return out
+            raise AnalysisError(f'{path}(out=...) into {out!r} at {interp.where(node)}')
         if path == 'numpy.square' and args:
             return args[0] ** 2 if isinstance(args[0], NdArr) else interp.binop('pow', lambda a, b: a ** b, args[0], 2, node)
         if path == 'numpy.atleast_2d' and args and isinstance(args[0], NdArr):
